@@ -81,7 +81,10 @@ def fileErrName : FileErr → String
 
 def apiErrName : ApiErr → String
   | .tagNotRecognized => "tagNotRecognized" | .badExpr => "badExpr" | .notFound => "notFound"
-  | .file e => "file:" ++ fileErrName e | .unsupported => "unsupported"
+  | .file e => "file:" ++ fileErrName e | .unsupported => "unsupported" | .walk e => (match e with
+    | .badExpr => "badExpr" | .indexError => "indexError" | .typeError => "typeError"
+    | .valueError => "valueError" | .unboundLocal => "unboundLocal" | .runtimeError => "runtimeError"
+    | .keyError => "keyError" | .outOfFuel => "outOfFuel" | .unsupported => "unsupported")
 
 def apiAnswer (r : Except ApiErr (Option Prod)) : Json :=
   match r with
@@ -191,6 +194,20 @@ def handle : Handler := fun j => do
     | .ok none => pure (Json.mkObj [("out", "ok"), ("version", Json.null)])
     | .ok (some v) => pure (Json.mkObj [("out", "ok"), ("version", ofStr v)])
     | .error e => pure (Json.mkObj [("out", "err"), ("err", fileErrName e)])
+  | "findF" =>
+    -- `files`: [[name, text]] — the VRO entries that name existing files
+    let C ← ctxOfJson j
+    let r ← reqOfJson (← j.getObjVal? "req")
+    let q ← apiReqOfJson (← j.getObjVal? "q")
+    let files ← (← jarr j "files").mapM fun p => do
+      match ← strsOf p with
+      | [n, t] => pure (n, t)
+      | _ => throw "file: expected [name, text]"
+    let listed := files.filterMap fun f => match tagFileVersion f.2 q.name with | .ok (some v) => some (some v) | _ => none
+    if !(← guardOk j ([r.version, r.vexpr] ++ listed)) then return unsupportedAns
+    match findF C files q r (← jstrs j "vro") with
+    | .ok h => pure (Json.mkObj [("out", "ok"), ("hit", hitToJson h)])
+    | .error e => pure (Json.mkObj [("out", "err"), ("err", apiErrName e)])
   | "findProductApi" =>
     let C ← ctxOfJson j
     let v ← jstrOpt j "version"
